@@ -6,17 +6,19 @@ import Stun.Proofs.ClientHistory
 namespace Stun.C15
 open Stun Stun.Client Stun.ClientProofs
 
-/-- the first Close succeeds (nil or CloseErr), closes the connection exactly once iff the client owns it, invokes no
-    handler and writes nothing; every later Close returns ErrClientClosed and does nothing -/
+/-- the first Close succeeds (nil or CloseErr); the only handler invocations it makes complete transactions in flight
+    with ErrAgentClosed; it writes nothing; it closes the connection exactly once iff the client owns it; every
+    later Close returns ErrClientClosed and does nothing -/
 theorem close_once (c : Client) :
     (c.closed = false →
       (c.close).1.closed = true ∧ ((c.close).2.1 = none ∨ (c.close).2.1 = some .closeErr) ∧
-      (c.close).2.2 = (if c.closeConn then [COut.connClose] else [])) ∧
+      (∀ x ∈ (c.close).2.2, (∃ h id, x = COut.call h id .agentClosed) ∨ (x = COut.connClose ∧ c.closeConn = true)) ∧
+      ((c.close).2.2.filter (fun x => x == COut.connClose)).length = (if c.closeConn then 1 else 0)) ∧
     (c.closed = true → c.close = (c, some .clientClosed, [])) := by
   obtain ⟨k1, k2⟩ := close_spec c
   refine ⟨fun h => ?_, k1⟩
-  obtain ⟨b1, _, _, b4, b5⟩ := k2 h
-  exact ⟨b1, b5, b4⟩
+  obtain ⟨b1, _, b3, b4, b5⟩ := k2 h
+  exact ⟨b1, b3, b4, b5⟩
 
 /-- after Close every Start and Indicate returns ErrClientClosed without writing -/
 theorem after_close_rejects (c : Client) (hc : c.closed = true) (id : TID) (raw : Bytes) (h : Option Nat) :
@@ -58,7 +60,7 @@ theorem no_output_after_close (c : Client) (hc : c.closed = true) (ha : c.agent.
 /-- Close leaves the client closed with a closed agent — the hypothesis of `no_output_after_close` -/
 theorem close_establishes (c : Client) (hc : c.closed = false) :
     (c.close).1.closed = true ∧ (c.close).1.agent.closed = true := by
-  obtain ⟨b1, _, b3, _, _⟩ := (close_spec c).2 hc
-  exact ⟨b1, b3⟩
+  obtain ⟨b1, b2, _, _, _⟩ := (close_spec c).2 hc
+  exact ⟨b1, b2⟩
 
 end Stun.C15
